@@ -12,7 +12,7 @@ CHECKS = {
   design="6 C01"),
  "C13": dict(
   technique="runtime oracle: synthesis of conforming traffic per bundled signature, packet-level analysis, and a p0f-level conformance predicate for earlier entries; dead signatures of the unchanged tree listed item by item as a known finding",
-  text="Exploration: each of the 199 TCP and 99 HTTP bundled signatures is instantiated as packets/messages (TCP: IPv4/IPv6, hop counts 0..30, admissible MSS/scale values, windows realising the window form, option bytes realising the layout, header bits realising exactly the quirks; 300 variants per signature quick / 6000 thorough; HTTP: 16 variants over HTTP version, optional headers in/out, exact vs substring values, exact vs embedded software token, request method / response status, and -- for responses -- what the client did before: ordinary request, none, unlisted method, request after the response) and analysed at packet level; the best match must be the signature's own label or the label of an earlier entry the traffic conforms to; derived databases (bundled text with the sig lines of 1..3 labels per section commented out) must keep every own-label match of the bundled database. Held = every (signature, variant class) either reaches its label or is one of the 299 listed dead items.",
+  text="Exploration: each of the 199 TCP and 99 HTTP bundled signatures is instantiated as packets/messages (TCP: IPv4/IPv6, hop counts 0..30, admissible MSS/scale values, windows realising the window form, option bytes realising the layout, header bits realising exactly the quirks; 2000 variants per signature quick / 12000 thorough; HTTP: 16 variants over HTTP version, optional headers in/out, exact vs substring values, exact vs embedded software token, request method / response status, and -- for responses -- what the client did before: ordinary request, none, unlisted method, request after the response) and analysed at packet level; the best match must be the signature's own label or the label of an earlier entry the traffic conforms to; derived databases (bundled text with the sig lines of 1..3 labels per section commented out) must keep every own-label match of the bundled database. Held = every (signature, variant class) either reaches its label or is one of the 299 listed dead items.",
   note="Conformance predicate and synthesis are the harness' own (c13.rs); a listed item that becomes reachable is noted, not reported.",
   design="6 C13"),
  "C04": dict(
@@ -67,7 +67,7 @@ CHECKS = {
   design="6 C15"),
  "C20": dict(
   technique="runtime differential monitor: unified analyzer vs the protocol analyzers packet by packet under a shared virtual clock, and configuration-lattice masking check",
-  text="Exploration: 12k (quick) / 300k (thorough) seeded traces with injected hostile frames and Fast Open SYNs carrying data, connection capacity 256 or (a third of the traces) exactly the number of connections; every packet that all protocol analyzers accept is compared field by field (raw signature parts, endpoints, labels and quality bit patterns) between HuginnNet::analyze_tcp and the TCP / HTTP / stateless TLS analyzers, for the 16 switch combinations with and without a database (quick rotates half of the non-default configurations per trace). Held = ~3.5e6 judged packet/configuration pairs (quick) without a difference.",
+  text="Exploration: 40k (quick) / 600k (thorough) seeded traces with injected hostile frames and Fast Open SYNs carrying data, connection capacity 256 or (a third of the traces) exactly the number of connections; every packet that all protocol analyzers accept is compared field by field (raw signature parts, endpoints, labels and quality bit patterns) between HuginnNet::analyze_tcp and the TCP / HTTP / stateless TLS analyzers, for the 16 switch combinations with and without a database (quick rotates half of the non-default configurations per trace). Held = ~1.2e7 judged packet/configuration pairs (quick) without a difference.",
   note="Needs hooks H1/H3. Packets rejected by some analyzer are not compared; diagnosis not judged when matching is off.",
   design="6 C20"),
  "C18": dict(
@@ -92,7 +92,7 @@ CHECKS = {
   design="6 C07"),
  "C19": dict(
   technique="runtime oracle: online reference state machine (exact rational arithmetic) over episodes driven with a virtual clock hook",
-  text="Exploration: ~1.7e6 (quick) / ~2.7e7 (thorough) judged per-segment reports from episodes of timestamped segments whose arrival times are injected through the clock hook: every integer rate 0..1600 Hz x 13 intervals at the 25 ms / 100 ms / 600 s boundaries x 8 base timestamps (incl. wrap), minimum-tick and grid-boundary cases, backward movement, and seeded interleaved client/server sequences. Each report or absence of one is compared with the documented estimator restated as a state machine. Held = no segment's report differed.",
+  text="Exploration: ~7e6 (quick) / ~5e7 (thorough) judged per-segment reports from episodes of timestamped segments whose arrival times are injected through the clock hook: every integer rate 0..1600 Hz x 13 intervals at the 25 ms / 100 ms / 600 s boundaries x 8 base timestamps (incl. wrap), minimum-tick and grid-boundary cases, backward movement, and seeded interleaved client/server sequences. Each report or absence of one is compared with the documented estimator restated as a state machine. Held = no segment's report differed.",
   note="Needs hook H1 (injectable clock). The grid, bounds and the backward-movement rule are restated from the crate's documentation; float/rational boundary agreement argued in c19.rs.",
   design="6 C19"),
  "C03": dict(
